@@ -33,6 +33,7 @@ type Program struct {
 	cg        *callgraph.Graph
 	cgIndex   map[ssa.CallInstruction][]*ssa.Function
 	fileOf    map[string]*ast.File
+	sccp      *SCCP
 }
 
 // Load type-checks and builds SSA for every package of the module under dir.
